@@ -1298,6 +1298,144 @@ Proof.
   - intros i n H. discriminate.
 Qed.
 
+(* ---- addresses are never reused: a node deleted once stays dead ------------------------------------- *)
+(* (purely structural facts about the step functions; no invariant is needed) *)
+Definition fresh_ok (s s' : store) : Prop :=
+  next V s <= next V s' /\ forall i, nlookup s' i <> None -> nlookup s i <> None \/ next V s <= i.
+Lemma fresh_refl s : fresh_ok s s.
+Proof. split; auto. Qed.
+Lemma fresh_trans s1 s2 s3 : fresh_ok s1 s2 -> fresh_ok s2 s3 -> fresh_ok s1 s3.
+Proof.
+  intros [A1 A2] [B1 B2]. split; [lia|]. intros i H. destruct (B2 i H) as [H2|H2]; [|right; lia].
+  destruct (A2 i H2); auto.
+Qed.
+Lemma fresh_upd s i f : fresh_ok s (set_nodes V s (update Nat.eq_dec (nodes V s) i f)).
+Proof.
+  split; auto. intros j H. left. destruct (Nat.eq_dec i j).
+  - subst. rewrite nlookup_upd_eq in H. destruct (nlookup s j); simpl in *; congruence.
+  - rewrite nlookup_upd_neq in H; auto.
+Qed.
+Lemma fresh_handles s hs : fresh_ok s (mks (nodes V s) (ltab V s) (itab V s) (next V s) hs).
+Proof. split; auto. Qed.
+Lemma fresh_remove s i lt it : fresh_ok s (mks (remove_key Nat.eq_dec (nodes V s) i) lt it (next V s) (handles V s)).
+Proof.
+  split; auto. intros j H. left. unfold MtbddStoreDefs.nlookup in *. simpl in H. destruct (Nat.eq_dec i j).
+  - subst. rewrite lookup_remove_eq in H. congruence.
+  - rewrite lookup_remove_neq in H; auto.
+Qed.
+Lemma fresh_add s n lt it : fresh_ok s (mks ((next V s, n) :: nodes V s) lt it (S (next V s)) (handles V s)).
+Proof.
+  split; simpl; auto. intros j. unfold MtbddStoreDefs.nlookup. simpl. destruct (Nat.eq_dec j (next V s)); [subst; auto|auto].
+Qed.
+Lemma spawn_leaf_fresh s v : fresh_ok s (fst (spawn_leaf s v)).
+Proof. unfold MtbddStoreDefs.spawn_leaf. destruct (lookup V_eq_dec (ltab V s) v); simpl; [apply fresh_refl|apply fresh_add]. Qed.
+Lemma spawn_internal_fresh s lo hi x : fresh_ok s (fst (spawn_internal s lo hi x)).
+Proof.
+  unfold MtbddStoreDefs.spawn_internal. destruct (lookup ikey_eq_dec (itab V s) (lo, hi, x)); simpl; [apply fresh_refl|].
+  eapply fresh_trans; [apply fresh_add|]. eapply fresh_trans; apply fresh_upd.
+Qed.
+Lemma intern_fresh d : forall s, fresh_ok s (fst (intern s d)).
+Proof.
+  induction d as [v|x l IHl h IHh]; intros s; simpl; [apply spawn_leaf_fresh|].
+  specialize (IHl s). destruct (intern s l) as [s1 il]. specialize (IHh s1). destruct (intern s1 h) as [s2 ih].
+  simpl in *. eapply fresh_trans; [exact IHl|]. eapply fresh_trans; [exact IHh|]. apply spawn_internal_fresh.
+Qed.
+Lemma release_fresh g : forall s i s' log, release g s i = Some (s', log) -> fresh_ok s s'.
+Proof.
+  induction g as [v0|x0 gl IHl gh IHh]; intros s i s' log; simpl;
+    destruct (nlookup s i) as [[sh c]|]; try discriminate; simpl; destruct c as [|[|c]]; try discriminate.
+  - destruct sh; [|discriminate]. intros [= <- <-]. apply fresh_remove.
+  - intros [= <- <-]. apply fresh_upd.
+  - destruct sh as [v|lo hi x]; [intros [= <- <-]; apply fresh_remove|].
+    destruct (release gl (dispose_internal s i (lo, hi, x)) lo) as [[s1 l1]|] eqn:E1; [|discriminate].
+    destruct (release gh s1 hi) as [[s2 l2]|] eqn:E2; [|discriminate]. intros [= <- <-].
+    eapply fresh_trans; [apply fresh_remove|]. eapply fresh_trans; eauto.
+  - intros [= <- <-]. apply fresh_upd.
+Qed.
+Lemma chain_fresh asgn : forall s i off sink proc, fresh_ok s (fst (chain_st s asgn i off sink proc)).
+Proof.
+  induction asgn as [|t r IH]; intros s i off sink proc; simpl; [apply fresh_refl|].
+  destruct t; auto.
+  - assert (F := spawn_internal_fresh s proc sink (i + off)). destruct (spawn_internal s proc sink (i + off)) as [s1 p].
+    eapply fresh_trans; [exact F|apply IH].
+  - assert (F := spawn_internal_fresh s sink proc (i + off)). destruct (spawn_internal s sink proc (i + off)) as [s1 p].
+    eapply fresh_trans; [exact F|apply IH].
+Qed.
+Lemma construct_st_fresh s asgn nd dv off : fresh_ok s (fst (construct_st s asgn nd dv off)).
+Proof.
+  unfold MtbddStoreDefs.construct_st. destruct (is_leaf_st V V_eq_dec s nd dv); simpl; [apply fresh_upd|].
+  assert (F1 := spawn_leaf_fresh s dv). destruct (spawn_leaf s dv) as [s1 sink].
+  assert (F2 := chain_fresh asgn s1 0 off sink nd). destruct (chain_st s1 asgn 0 off sink nd) as [s2 proc]. simpl in *.
+  eapply fresh_trans; [exact F1|]. eapply fresh_trans; [exact F2|]. eapply fresh_trans; [|apply fresh_upd].
+  destruct (proc =? nd); [|apply fresh_refl]. destruct (rc_of V s2 sink =? 0); [apply fresh_remove|apply fresh_refl].
+Qed.
+Lemma make_fresh s h d dv : fresh_ok s (make s h d dv).
+Proof.
+  unfold MtbddStoreDefs.make. assert (F := intern_fresh d s). destruct (intern s d) as [s1 i]. simpl in F.
+  eapply fresh_trans; [exact F|]. eapply fresh_trans; [apply fresh_upd|]. apply (fresh_handles (inc_rc s1 i)).
+Qed.
+Lemma step_fresh s o s' log : step s o = Some (s', log) -> fresh_ok s s'.
+Proof.
+  destruct o as [h asgn v dv|h v|h g|h g|h f a|h f a b|h f a b c|h asgn off a|h asgn off a|h]; simpl.
+  - destruct (is_none (hlookup s h)); [|discriminate].
+    assert (F1 := spawn_leaf_fresh s v). destruct (spawn_leaf s v) as [s1 nd].
+    assert (F2 := construct_st_fresh s1 asgn nd dv 0). destruct (construct_st s1 asgn nd dv 0) as [s2 r]. simpl in *.
+    intros [= <- <-]. eapply fresh_trans; [exact F1|]. eapply fresh_trans; [exact F2|]. apply (fresh_handles s2).
+  - destruct (is_none (hlookup s h)); [|discriminate].
+    assert (F1 := spawn_leaf_fresh s v). destruct (spawn_leaf s v) as [s1 r]. simpl in *.
+    intros [= <- <-]. eapply fresh_trans; [exact F1|]. eapply fresh_trans; [apply fresh_upd|]. apply (fresh_handles (inc_rc s1 r)).
+  - destruct (is_none (hlookup s h)); [|discriminate]. destruct (hlookup s g) as [hg|]; [|discriminate].
+    intros [= <- <-]. eapply fresh_trans; [apply fresh_upd|]. apply (fresh_handles (inc_rc s (root V hg))).
+  - destruct (hlookup s h) as [hh|]; [|discriminate]. destruct (hlookup s g) as [hg|]; [|discriminate].
+    destruct (h =? g); [intros [= <- <-]; apply fresh_refl|].
+    destruct (release (ghost V hh) (del_handle s h) (root V hh)) as [[s1 l1]|] eqn:E; [|discriminate].
+    intros [= <- <-]. apply release_fresh in E.
+    eapply fresh_trans; [apply (fresh_handles s)|]. eapply fresh_trans; [exact E|].
+    eapply fresh_trans; [apply fresh_upd|]. apply (fresh_handles (inc_rc s1 (root V hg))).
+  - destruct (is_none (hlookup s h)); [|discriminate]. destruct (hlookup s a); [|discriminate]. intros [= <- <-]. apply make_fresh.
+  - destruct (is_none (hlookup s h)); [|discriminate]. destruct (hlookup s a); [|discriminate]. destruct (hlookup s b); [|discriminate].
+    intros [= <- <-]. apply make_fresh.
+  - destruct (is_none (hlookup s h)); [|discriminate]. destruct (hlookup s a); [|discriminate]. destruct (hlookup s b); [|discriminate].
+    destruct (hlookup s c); [|discriminate]. intros [= <- <-]. apply make_fresh.
+  - destruct (is_none (hlookup s h)); [|discriminate]. destruct (hlookup s a) as [ha|]; [|discriminate].
+    assert (F := construct_st_fresh s asgn (root V ha) (dflt V ha) off). destruct (construct_st s asgn (root V ha) (dflt V ha) off) as [s1 r].
+    simpl in *. intros [= <- <-]. eapply fresh_trans; [exact F|]. apply (fresh_handles s1).
+  - destruct (is_none (hlookup s h)); [|discriminate]. destruct (hlookup s a); [|discriminate]. intros [= <- <-]. apply make_fresh.
+  - destruct (hlookup s h) as [hh|]; [|discriminate]. intros E. apply release_fresh in E.
+    eapply fresh_trans; [apply (fresh_handles s)|exact E].
+Qed.
+
+(* a node that has been deleted: an address below the allocation mark that is not in the heap *)
+Definition dead (s : store) (j : id) : Prop := j < next V s /\ nlookup s j = None.
+Lemma dead_fresh s s' j : fresh_ok s s' -> dead s j -> dead s' j.
+Proof.
+  intros [A B] [L N]. split; [lia|]. destruct (nlookup s' j) eqn:E; auto.
+  destruct (B j) as [H|H]; [congruence|congruence|lia].
+Qed.
+
+(* over a whole history no node is deleted twice: the concatenated log has no duplicates, every
+   deleted node was alive (not dead) at the start of the history or created during it, and is dead at the end *)
+Theorem run_no_double_release os : forall s s' log, Inv s -> valid_run s os -> run s os = Some (s', log) ->
+  NoDup log /\ (forall j, In j log -> ~ dead s j /\ dead s' j) /\ fresh_ok s s'.
+Proof.
+  induction os as [|o r IH]; intros s s' log I Vr; simpl.
+  - intros [= <- <-]. split; [constructor|]. split; [intros j []|apply fresh_refl].
+  - destruct Vr as [Vo Vr]. destruct (step_ok s o I Vo) as [s1 [l1 [E1 [I1 [_ [ND1 L1]]]]]]. rewrite E1.
+    destruct (run s1 r) as [[s2 l2]|] eqn:E2; [|discriminate]. intros [= <- <-].
+    destruct (IH s1 s2 l2 I1 (Vr s1 l1 E1) E2) as [ND2 [L2 F2]].
+    assert (F1 := step_fresh s o s1 l1 E1).
+    assert (D1 : forall j, In j l1 -> ~ dead s j /\ dead s1 j).
+    { intros j Hj. destruct (L1 j Hj) as [A B]. split; [intros [_ Q]; congruence|]. split; auto.
+      destruct I as [C _]. destruct (nlookup s j) as [n|] eqn:En; [|congruence].
+      apply (c_fresh s [] C) in En. destruct F1; lia. }
+    split; [|split].
+    + apply nodup_app; auto. intros j H1 H2. destruct (D1 j H1) as [_ A]. destruct (L2 j H2) as [B _]. contradiction.
+    + intros j Hj. apply in_app_or in Hj as [Hj|Hj].
+      * destruct (D1 j Hj) as [A B]. split; auto. eapply dead_fresh; eauto.
+      * destruct (L2 j Hj) as [A B]. split; auto. intros Q. apply A. eapply dead_fresh; eauto.
+    + eapply fresh_trans; eauto.
+Qed.
+
 Theorem step_inv s o : Inv s -> valid_op s o -> exists s' log, step s o = Some (s', log) /\ Inv s'.
 Proof. intros I Vd. destruct (step_ok s o I Vd) as [s' [log [E [I' _]]]]. eauto. Qed.
 Theorem run_inv os s : Inv s -> valid_run s os -> exists s' log, run s os = Some (s', log) /\ Inv s'.
